@@ -85,12 +85,13 @@ for (rto, rc) in ((500, 7), (500, 1), (3000, 3)):
                   funcs=["RtoManager::new", "RtoManager::next_rto"]))
 for (rto, rc, i, tier) in ([(500, 7, i, "quick") for i in range(1, 8)] + [(500, 1, 1, "quick"), (500, 2, 1, "quick"), (500, 2, 2, "quick"),
                            (1, 4, 1, "thorough"), (1, 4, 3, "thorough"), (3000, 3, 1, "thorough"), (3000, 3, 2, "thorough"), (3000, 3, 3, "thorough"),
-                           (500, 10, 1, "thorough"), (500, 10, 5, "thorough"), (500, 10, 9, "thorough"), (500, 10, 10, "thorough")]):
+                           (500, 10, 1, "thorough"), (500, 10, 5, "thorough"), (500, 10, 9, "thorough"), (500, 10, 10, "thorough"),
+                           (100, 5, 1, "thorough"), (100, 5, 3, "thorough"), (100, 5, 5, "thorough"), (250, 4, 2, "thorough"), (250, 4, 4, "thorough")]):
     _c06.append(H("agent", TMO + "c06_step_rto%d_rc%d_i%d" % (rto, rc, i), tier=tier, timeout=2400 if rc == 10 else 600, mem_gb=6, covers=(2 if i == rc else 3), stubs=[CDS],
                   bounds="inductive step: RTO=%d ms, Rc=%d, Rm symbolic 1..32, arbitrary pre-state with slot index %d (latest/last_rto symbolic, latest+last_rto = D_%d), one call at any later instant within 700 s" % (rto, rc, i, i),
                   funcs=["RtoManager::next_rto", "RtoCalculator::next_rto"],
                   sample="pre: latest=t0+1.2s,last_rto=0.3s (D_2=1.5s); call at t0+4.0s -> Some(3.5s... D_4=7.5s-4.0s)"))
-prop("C06", _c06, outside="RTO values other than 1/500/3000 ms (the schedule is linear in RTO), Rc > 10, client-level observation of the schedule (see C05/C11 glue harnesses)",
+prop("C06", _c06, outside="RTO values other than 1/100/250/500/3000 ms (the schedule is linear in RTO), Rc > 10, client-level observation of the schedule (see C05/C11 glue harnesses)",
      assumptions=["timer calls are made at non-decreasing instants (monotonic clock)"])
 DESCR["C06"] = {
     "level": "Bounded model checking of the real RtoManager/RtoCalculator: base case (first call) plus one inductive step from an arbitrary state satisfying the schedule invariant, with the call instant, the previous call instant and Rm symbolic, against a closed-form RFC 8489 schedule; histories of any length follow by induction for the instantiated (RTO, Rc).",
@@ -396,8 +397,8 @@ _C07 = [H("agentshim", ST + n, tier=t, timeout=1800, mem_gb=12, covers=c, stubs=
                              ("c07_two_replies_unreliable", "quick", 1, "two replies for one transaction on unreliable transport (rejected then acceptable, valid then duplicate)"))]
 _C13_PATS = [(9, 9, 9), (0, 0, 9), (0, 1, 9), (0, 2, 9), (0, 3, 9), (0, 4, 9), (0, 5, 9), (1, 0, 9), (1, 1, 9), (1, 2, 9), (1, 3, 9), (1, 4, 9), (1, 5, 9), (2, 0, 9), (2, 1, 9), (2, 2, 9), (2, 3, 9), (2, 4, 9), (2, 5, 9), (3, 0, 9), (3, 1, 9), (3, 2, 9), (3, 3, 9), (3, 4, 9), (3, 5, 9), (4, 0, 9), (4, 1, 9), (4, 2, 9), (4, 3, 9), (4, 4, 9), (4, 5, 9), (5, 0, 9), (5, 1, 9), (5, 2, 9), (5, 3, 9), (5, 4, 9), (5, 5, 9), (0, 1, 0), (0, 2, 3), (2, 0, 4), (3, 0, 5), (4, 5, 0), (5, 4, 3), (1, 1, 2), (0, 3, 4), (2, 2, 0), (5, 0, 1), (3, 4, 5), (4, 3, 2)]
 _KN = {0: "ordinary-A", 1: "ordinary-B", 2: "USERNAME", 3: "MI", 4: "SHA256", 5: "FINGERPRINT", 9: "-"}
-_C13_QUICK = {(9, 9, 9), (0, 1, 9), (0, 0, 9), (2, 0, 9), (3, 4, 9), (4, 0, 9), (0, 4, 9), (5, 0, 9), (3, 5, 9), (0, 2, 3), (4, 5, 0), (5, 4, 3)}
-_C13 = [H("agentshim", ST + "c13_outgoing_p%d%d%d" % p, tier=("quick" if p in _C13_QUICK else "thorough"), timeout=1200, mem_gb=14, covers=None, stubs=_AS, playback=False,
+_C13_QUICK = {(9, 9, 9), (0, 1, 9), (0, 0, 9), (2, 0, 9), (3, 4, 9), (4, 0, 9), (0, 4, 9), (3, 5, 9), (0, 2, 3), (5, 4, 3)}
+_C13 = [H("agentshim", ST + "c13_outgoing_p%d%d%d" % p, tier=("quick" if p in _C13_QUICK else "thorough"), timeout=1500, mem_gb=(22 if 5 in p and 0 in p else 14), covers=None, stubs=_AS, playback=False,
           bounds="application list with the concrete kind pattern [%s] (values symbolic); mechanism state None/MI/SHA256 symbolic" % ", ".join(_KN[k] for k in p),
           funcs=["StunAttributes::add/remove", "From<StunAttributes> for Vec<StunAttribute>", "ShortTermCredentialClient::add_attributes/prepare_request_or_indication", "st_cred_mech::remove_auth_and_integrity_attrs"])
         for p in _C13_PATS]
@@ -502,3 +503,9 @@ EXTRA = {"C14": {"mir2smt": True}}
 META["C14"]["outside"] = "messages longer than 48 bytes under Kani; at the 64 KiB boundary only the length arithmetic is decided (second engine: every other call of the encode loop is havocked, memory effects ignored)"
 DESCR["C14"]["level"] += " The 64 KiB half is decided by a second engine on the compiler's MIR of the working tree (one encode-loop iteration + epilogue from an arbitrary reachable accumulator value, bit-vector SMT, z3 with cvc5 cross-check): dev MIR — no overflow assertion is violable; release MIR — the accumulator and the returned size never wrap; sat answers are replayed natively in both profiles."
 DESCR["C14"]["note"] = "Kani part: small messages (one attribute, <= 48 bytes) and every attribute encoder with every slice length. MIR part: integer arithmetic only; all calls except the ?-plumbing, try_from/try_into/into, checked_add/ok_or_else and common::padding are havocked (listed in evidence)."
+
+PROPS["C19"] = PROPS["C19"] + [
+    H("stunrs", VAL + "c19_algorithm_values", tier="thorough", timeout=900, mem_gb=10, covers=None, stubs=[NOFMT], bounds="all u16 algorithm ids, 0..3 parameter bytes", funcs=["Algorithm::new/from/algorithm/parameters/clone", "PasswordAlgorithm::new/algorithm/parameters"]),
+    H("stunrs", VAL + "c19_transaction_id_and_cookie", timeout=600, mem_gb=4, covers=None, stubs=[NOFMT], bounds="all 12-byte ids, all 4-byte cookie candidates", funcs=["TransactionId::from/as_bytes/as_ref", "Cookie PartialEq impls"]),
+    H("stunrs", VAL + "c19_message_builder_accessors", tier="thorough", timeout=900, mem_gb=10, covers=None, stubs=[NOFMT, TID], bounds="all methods, 0 or 1 attribute", funcs=["StunMessageBuilder::*", "StunMessage::method/class/attributes/get", "StunAttribute::is_*/as_*"]),
+]
